@@ -122,7 +122,7 @@ pub fn run(ctx: &mut Ctx, replay: Option<&Value>) {
         run_case(ctx, case);
         return;
     }
-    let n = ctx.cases.unwrap_or(if ctx.tier_thorough { 30_000 } else { 1_000 });
+    let n = ctx.count(3_000, 30_000);
     for i in 0..n {
         let mut rng = Rng::fork(ctx.seed, i);
         let case = gen_own_case(&mut rng, ctx.tier_thorough, i, true, 25);
